@@ -184,7 +184,12 @@ func Harness_C06(n int) {
 	if withStats {
 		opts = append(opts, pb.Statistics(&st, "no match"))
 	}
+	if memo {
+		// engine monitor: no (expression, offset) pair is evaluated twice (natively a no-op)
+		symMonitor("expronce")
+	}
 	b := runB(in, "", opts...)
+	symMonitor("off")
 	symNote(note(a))
 	symAssert(a.panicked == b.panicked, "C06: one run panicked")
 	symAssert(symEqual(a.v, b.v), "C06: value differs under Memoize/Debug/Statistics")
